@@ -12,7 +12,7 @@ import (
 
 // StrPool: typed strings so that each format rule passes on some and fails on others.
 var StrPool = []string{"a", "ab", "abc", "b", "ba", "测试", "测", "13540042617", "1354004261", "a@b.cc", "a@b", "1996", "996", "1996-09", "1996/09", "1996-09-28", "1996/09/28",
-	"1996-09-28 23:00:00", "1996-09-28 3:00:00", "1996/09/28 23:00:00", "1996/09/28T23.00.00", "1996-09-28_23:00:00", "1996.09.28", "15", "1,2", "1,1", "a,b", "1.5", "1x5", "{}", "{", "[1,2]", "1.2.3.4", "1.2.3", "::1", "510000000000000000", "51000000000000000X", "abcdefgh", "hello world", "ab测"}
+	"1996-09-28 23:00:00", "1996-09-28 3:00:00", "1996/09/28 23:00:00", "1996/09/28T23.00.00", "1996-09-28_23:00:00", "1996.09.28", "15", "1,2", "1,1", "a,b", "1.5", "1x5", "{}", "{", "[1,2]", "1.2.3.4", "1.2.3", "::1", "510000000000000000", "51000000000000000X", "abcdefgh", "hello world", "ab测", "18446744073709551616", "7777777777777777777777777777777777777777", "YWJjZA==", "1,18446744073709551616"}
 
 // ScalarRules returns candidate rule texts (without message) for a leaf / slice field type.
 func ScalarRules(rng *rand.Rand, t reflect.Type) []string {
@@ -167,6 +167,9 @@ func TunedLeaf(rng *rand.Rand, t reflect.Type, rules string, pZero float64) refl
 			n = 0
 		}
 		v.SetUint(uint64(n))
+		if t.Bits() == 64 && rng.Intn(25) == 0 {
+			v.SetUint(1<<63 + uint64(rng.Intn(1000))) // beyond the signed range
+		}
 	case reflect.Float32, reflect.Float64:
 		f := float64(near(-4, 10))
 		switch rng.Intn(4) {
@@ -186,6 +189,9 @@ func TunedLeaf(rng *rand.Rand, t reflect.Type, rules string, pZero float64) refl
 		if n > 6 {
 			n = 6
 		}
+		if rng.Intn(20) == 0 {
+			n = 17 + rng.Intn(24) // long collections (thresholds of "small input" fast paths)
+		}
 		if n == 0 && rng.Intn(2) == 0 {
 			return v // nil slice
 		}
@@ -195,6 +201,9 @@ func TunedLeaf(rng *rand.Rand, t reflect.Type, rules string, pZero float64) refl
 			switch e.Kind() {
 			case reflect.String:
 				e.SetString([]string{"1", "2", "3", "a", "12", "测"}[rng.Intn(6)])
+				if n > 6 {
+					e.SetString("e" + strconv.Itoa(rng.Intn(60)))
+				}
 			case reflect.Int, reflect.Int8, reflect.Int16, reflect.Int32, reflect.Int64:
 				e.SetInt(int64(rng.Intn(5)))
 			case reflect.Uint, reflect.Uint8, reflect.Uint16, reflect.Uint32, reflect.Uint64:
